@@ -24,12 +24,14 @@ def seeded_summary():
     r1 = [j for j in ms if j["id"][-1] in "ab"]
     r2 = [j for j in ms if j["id"][-1] in "cd"]
     r3 = [j for j in ms if j["id"][-1] in "ef"]
+    r4 = [j for j in ms if j["id"][-1] in "gh"]
     def nm(r):
         return len([j for j in r if j["id"] in missed])
     return ("%d kept mutants: %d from the first round (ids -a/-b, %d missed at first), %d from the second (ids -c/-d, %d missed at first; "
             "their authors were told which sites the first round had used), %d from the third (ids -e/-f, %d missed at first; told the sites "
-            "of both earlier rounds). All are detected by the current checks. Missed by the check as it stood when the mutant arrived: %s."
-            % (len(ms), len(r1), nm(r1), len(r2), nm(r2), len(r3), nm(r3), ", ".join(missed)))
+            "of both earlier rounds), %d from the fourth (ids -g/-h, %d missed at first). All are detected by the current checks. Missed by the check "
+            "as it stood when the mutant arrived: %s."
+            % (len(ms), len(r1), nm(r1), len(r2), nm(r2), len(r3), nm(r3), len(r4), nm(r4), ", ".join(missed)))
 
 def main():
     p = os.path.join(V, "DESIGN.md")
